@@ -156,15 +156,19 @@ enum Intruder {
     WriteCommit,
     TwoReads,
     DropDatabase,
+    /// begin_read while the victim is parked and keep the reader across the victim's completion
+    /// and two later commits: its snapshot must not change
+    HoldReader,
 }
 
-const INTRUDERS: [Intruder; 6] = [
+const INTRUDERS: [Intruder; 7] = [
     Intruder::ReadAll,
     Intruder::DropOldReader,
     Intruder::DropSavepoint,
     Intruder::WriteCommit,
     Intruder::TwoReads,
     Intruder::DropDatabase,
+    Intruder::HoldReader,
 ];
 
 struct Shared {
@@ -175,6 +179,7 @@ struct Shared {
     victim_sp: Mutex<Option<Savepoint>>,
     k: AtomicU64,
     held_writer: Mutex<Option<WriteTransaction>>,
+    held_reader: Mutex<Option<(ReadTransaction, u64)>>,
 }
 
 fn setup(state: u64, be: &MonBackend, cfg: &Cfg) -> Result<Shared, String> {
@@ -231,6 +236,7 @@ fn setup(state: u64, be: &MonBackend, cfg: &Cfg) -> Result<Shared, String> {
         victim_sp: Mutex::new(sp_b),
         k: AtomicU64::new(k),
         held_writer: Mutex::new(None),
+        held_reader: Mutex::new(None),
     })
 }
 
@@ -355,6 +361,12 @@ fn run_intruder(i: Intruder, sh: &Shared) -> Result<IntruderOut, String> {
             out.reads.push(read_seq_txn(&a)?);
             out.reads.push(read_seq_txn(&b)?);
         }
+        Intruder::HoldReader => {
+            let rt = db()?.begin_read().map_err(|e| e.to_string())?;
+            let k = read_seq_txn(&rt)?;
+            out.reads.push(k);
+            *sh.held_reader.lock().unwrap() = Some((rt, k));
+        }
         Intruder::DropOldReader => {
             let r = sh.old_reader.lock().unwrap().take();
             if let Some(r) = r {
@@ -396,7 +408,7 @@ fn compatible(v: Victim, p: &str, i: Intruder) -> bool {
     }
     // roles that use the Database after another role dropped it are not meaningful schedules
     let v_drops = matches!(v, Victim::DropDatabase | Victim::DropDatabaseWithLiveWriter);
-    let i_needs_db = matches!(i, Intruder::ReadAll | Intruder::TwoReads | Intruder::WriteCommit);
+    let i_needs_db = matches!(i, Intruder::ReadAll | Intruder::TwoReads | Intruder::WriteCommit | Intruder::HoldReader);
     if v_drops && (i_needs_db || i == Intruder::DropDatabase) {
         return false;
     }
@@ -431,7 +443,9 @@ struct ScenOut {
 fn scenario(v: Victim, point: &'static str, nth: u32, i: Intruder, state: u64, seed: u64) -> ScenOut {
     let cfg = Cfg { page_size: 512, region_pages: Some(64), cache: if seed % 2 == 0 { 0 } else { 1 << 20 } };
     let be = MonBackend::new();
-    be.set_sync_hook(crate::fmt::sync_hook(false));
+    if crate::report::tiny() == 0 {
+        be.set_sync_hook(crate::fmt::sync_hook(false));
+    }
     let sh = match setup(state, &be, &cfg) {
         Ok(s) => Arc::new(s),
         Err(e) => return ScenOut { outcome: "setup-failed", violation: Some(format!("setup: {e}")), inconclusive: None },
@@ -598,6 +612,48 @@ fn scenario(v: Victim, point: &'static str, nth: u32, i: Intruder, state: u64, s
             out.violation = Some(format!("after {v:?}@{point} x {i:?}: {e}"));
         }
     }
+    // a reader begun during the park and held until now: two more commits recycle whatever the
+    // victim's commit freed, then the reader must still see exactly what it saw
+    if let Some((rt, k0)) = sh.held_reader.lock().unwrap().take() {
+        let g = sh.db.lock().unwrap();
+        if let (Some(db), None) = (g.as_ref(), &out.violation) {
+            let mut k = expect;
+            for _ in 0..2 {
+                k += 1;
+                let r = (|| -> Result<(), String> {
+                    let txn = db.begin_write().map_err(|e| e.to_string())?;
+                    write_seq(&txn, k, 12)?;
+                    txn.commit().map_err(|e| e.to_string())
+                })();
+                if let Err(e) = r {
+                    out.violation = Some(format!("commit after {v:?}@{point} x {i:?}: {e}"));
+                    break;
+                }
+            }
+            if out.violation.is_none() {
+                match guarded(|| read_seq_txn(&rt)) {
+                    Ok(Ok(k1)) if k1 == k0 => {}
+                    Ok(Ok(k1)) => {
+                        out.violation = Some(format!(
+                            "a reader begun while {v:?} was parked at {point} saw commit {k0}; after the commit finished and two more followed it sees commit {k1}"
+                        ))
+                    }
+                    Ok(Err(e)) => {
+                        out.violation = Some(format!(
+                            "a reader begun while {v:?} was parked at {point} (snapshot: commit {k0}) no longer reads its snapshot after the commit finished and two more followed: {e}"
+                        ))
+                    }
+                    Err(p) => {
+                        out.violation = Some(format!(
+                            "a reader begun while {v:?} was parked at {point} (snapshot: commit {k0}) panicked reading its snapshot after later commits: {}",
+                            p.short()
+                        ))
+                    }
+                }
+            }
+        }
+        drop(rt);
+    }
     // ownership accounting once every pin is gone
     sh.old_reader.lock().unwrap().take();
     sh.savepoint.lock().unwrap().take();
@@ -690,7 +746,9 @@ fn stress(seed: u64, case: u64) -> StressOut {
         cache: *rng.pick(&[0usize, 4096, 1 << 20]),
     };
     let be = MonBackend::new();
-    be.set_sync_hook(crate::fmt::sync_hook(false));
+    if crate::report::tiny() == 0 {
+        be.set_sync_hook(crate::fmt::sync_hook(false));
+    }
     let mut out = StressOut { commits: 0, reads: 0, aborts: 0, savepoints: 0, violation: None };
     let db = match cfg.builder().create_with_backend(be.clone()) {
         Ok(d) => Arc::new(d),
@@ -706,9 +764,10 @@ fn stress(seed: u64, case: u64) -> StressOut {
     }
     let ctl = Ctl::new();
     ctl.set_jitter(true);
-    let n_writers = rng.range(2, 5);
-    let n_readers = rng.range(2, 6);
-    let per_writer = rng.range(20, 120);
+    let tiny = crate::report::tiny() > 0;
+    let n_writers = if tiny { 2 } else { rng.range(2, 5) };
+    let n_readers = if tiny { 2 } else { rng.range(2, 6) };
+    let per_writer = if tiny { 3 } else { rng.range(20, 120) };
     let acked = Arc::new(AtomicU64::new(1));
     let live_writers = Arc::new(AtomicI64::new(0));
     let stop = Arc::new(AtomicBool::new(false));
@@ -801,7 +860,20 @@ fn stress(seed: u64, case: u64) -> StressOut {
                 let mut last = 0u64;
                 while !stop.load(Ordering::SeqCst) {
                     let floor = acked.load(Ordering::SeqCst);
-                    let res = guarded(|| read_seq(&db));
+                    let hold = floor % 4 == (ri % 4);
+                    let res = guarded(|| -> Result<u64, String> {
+                        let rt = db.begin_read().map_err(|e| format!("begin_read: {e}"))?;
+                        let k = read_seq_txn(&rt)?;
+                        if hold {
+                            // keep the snapshot while writers commit, then read it again
+                            std::thread::sleep(Duration::from_micros(400 + 150 * ri));
+                            let k2 = read_seq_txn(&rt).map_err(|e| format!("second read of one snapshot (first saw commit {k}): {e}"))?;
+                            if k2 != k {
+                                return Err(format!("one read transaction saw commit {k} and later commit {k2}"));
+                            }
+                        }
+                        Ok(k)
+                    });
                     match res {
                         Ok(Ok(k)) => {
                             reads.fetch_add(1, Ordering::Relaxed);
@@ -907,25 +979,46 @@ pub fn run(rep: &Report) {
     install_hook();
     // enumerate scripted triples
     let mut triples: Vec<(Victim, &'static str, Intruder, u64)> = vec![];
+    let _ = &mut triples;
     let states: Vec<u64> = vec![0, 1, 2, 3];
     let mut points_by_victim: BTreeMap<String, Vec<&'static str>> = BTreeMap::new();
-    for v in VICTIMS {
-        let mut pts: Vec<&'static str> = vec![];
-        for s in &states {
-            for p in points_of(v, *s) {
-                if !pts.contains(&p) {
-                    pts.push(p);
-                }
+    let tiny = crate::report::tiny();
+    if tiny > 0 {
+        // interpreter / sanitizer leg: a seeded handful of scripted triples
+        let mut r = Rng::for_case(rep.seed, "C03tiny", 0);
+        while (triples.len() as u64) < tiny {
+            let v = *r.pick(&VICTIMS);
+            let st = r.below(4);
+            let pts = points_of(v, st);
+            if pts.is_empty() {
+                continue;
+            }
+            let p = *r.pick(&pts);
+            let i = *r.pick(&INTRUDERS);
+            if compatible(v, p, i) {
+                points_by_victim.entry(format!("{v:?}")).or_default().push(p);
+                triples.push((v, p, i, st));
             }
         }
-        points_by_victim.insert(format!("{v:?}"), pts.clone());
-        for p in pts {
-            for i in INTRUDERS {
-                if !compatible(v, p, i) {
-                    continue;
+    } else {
+    for v in VICTIMS {
+            let mut pts: Vec<&'static str> = vec![];
+            for s in &states {
+                for p in points_of(v, *s) {
+                    if !pts.contains(&p) {
+                        pts.push(p);
+                    }
                 }
-                for s in &states {
-                    triples.push((v, p, i, *s));
+            }
+            points_by_victim.insert(format!("{v:?}"), pts.clone());
+            for p in pts {
+                for i in INTRUDERS {
+                    if !compatible(v, p, i) {
+                        continue;
+                    }
+                    for s in &states {
+                        triples.push((v, p, i, *s));
+                    }
                 }
             }
         }
@@ -938,6 +1031,7 @@ pub fn run(rep: &Report) {
         Tier::Thorough => (3u64, 4_000u64),
     };
     let n_scripted = triples.len() as u64 * scripted_share;
+    let n_stress = if tiny > 0 { tiny.div_ceil(2) } else { n_stress };
     rep.count("scripted.triples_enumerated", triples.len() as u64);
     let outcomes: Mutex<BTreeMap<String, u64>> = Mutex::new(BTreeMap::new());
     run_cases(
